@@ -50,8 +50,8 @@ PROPERTIES = {
                 explanation='panic freedom of every extracted engine function (overflow, indexing, unwrap, callee preconditions such as rand_below(n > 0)) proved by Verus, '
                             'plus RefCell guard-liveness obligations on the original thread_local_cache.rs (no borrow_mut while a borrow of the same cell is live); unit interference: the global lookup/store paths and the async lookup/insert path stay panic-free and terminate even when every lock acquisition / DashMap operation sees arbitrarily changed data (concurrent interference)',
                 assumptions=['limit >= 1 where the async engine requires it; counters unsaturated; totals fit usize', 'user closures / estimators / Debug impls do not panic']),
-    'C20': dict(units=['async_cache', 'wrappers_async'], extra=[_lock(['await'], 'C20'), _preawait('C20')],
-                explanation='on the real #[cache_async] expansions: no lock / DashMap guard is live at the .await (guard-liveness obligations), the only cache operation before the awaited body is the lookup, and the lookup never adds an entry and leaves the representation invariant intact (engine contract of get); after the await the store is the ordinary insert (last store wins, exact eviction); engine methods return owned values',
+    'C20': dict(units=['async_cache', 'wrappers_async', 'wrappers_async_await'], extra=[_lock(['await'], 'C20'), _preawait('C20')],
+                explanation='on the real #[cache_async] expansions: no lock / DashMap guard is live at the .await (guard-liveness obligations), the only cache operation before the awaited body is the lookup, and the lookup never adds an entry and leaves the representation invariant intact (engine contract of get); after the await the store is the ordinary insert (last store wins, exact eviction); engine methods return owned values; unit wrappers_async_await: the same expansions with ARBITRARY interference (any store / queue / statistics contents satisfying the representation invariant, same configuration) injected at the .await: the resumed call still stores exactly its own result under its own key, runs the body at most once, and a hit is served before any suspension',
                 assumptions=['Rust async semantics: dropping a future runs only the destructors of live locals', 'schedules enter only through the invariant argument: every other operation meets its precondition (wf) while the call is suspended']),
     'C17': dict(units=[], extra=[_lock(['rank'], 'C17')],
                 explanation='lock-rank discipline: at every acquisition site (original source text of the engines, registries and of the real macro expansions) every lock already held has a strictly smaller rank and no lock is re-acquired; a sufficient condition for deadlock freedom for all schedules',
